@@ -12,10 +12,10 @@ CORR, PROPCHK = 'C20_corr', 'C20_prop'
 THEOREMS = ['C20_count_is_number_of_versions', 'C20_no_rows_no_count', 'C20_example']
 RULE = ('key values drawn from an adversarial alphabet (single and double quotes, backslash, percent, colon, newline, '
         'semicolon, non-ASCII, empty string, long strings, SQL fragments) for string keys, plus integer, composite '
-        '(int,str) keys and a custom table-name format; version rows are loaded with Core INSERTs, the parent objects are '
+        '(int,str) keys, composite integer keys whose PRIMARY KEY constraint / mapper primary_key order differs from the declaration order (with mirror-image keys), and a custom table-name format; version rows are loaded with Core INSERTs, the parent objects are '
         'loaded through the ORM and count_versions(obj) is compared with obj.versions.count() and the model count; a '
         'transient object is counted too. Non-trivial: a string key containing a quote, backslash, newline, percent, colon '
-        'or non-ASCII character, with >= 2 entities. Distinct: hash of the canonical input.')
+        'or non-ASCII character, with >= 2 entities; or a swapped-order composite key present together with its mirror image under different version counts. Distinct: hash of the canonical input.')
 ASSUMPTIONS = ['key values are numbered injectively per case before they reach the model (only key equality matters)',
                'SQLite compares TEXT keys bytewise (BINARY collation)']
 
@@ -26,7 +26,11 @@ CFGS = [dict(strategy='subquery', keyshape='str', names='default'),
         dict(strategy='validity', keyshape='str', names='custom'),
         dict(strategy='subquery', keyshape='str', names='default', table_name='%s_history'),
         dict(strategy='subquery', keyshape='int', names='default'),
-        dict(strategy='subquery', keyshape='intstr', names='default')]
+        dict(strategy='subquery', keyshape='intstr', names='default'),
+        # composite integer keys whose PRIMARY KEY constraint lists the columns in another order than the class
+        # declares them (identity order != declaration order); mirror-image keys (1,2) / (2,1) are frequent
+        dict(strategy='subquery', keyshape='pkc', names='default'),
+        dict(strategy='validity', keyshape='pkm', names='default')]
 
 
 def budget(tier):
@@ -44,6 +48,8 @@ def gen_key(rng, cfg):
         return [rand_str(rng)]
     if cfg['keyshape'] == 'int':
         return [rng.choice([0, 1, 2, -1, 10 ** 12, 7])]
+    if cfg['keyshape'] in ('pkc', 'pkm'):
+        return [rng.randint(1, 3), rng.randint(1, 3)]
     return [rng.randint(1, 2), rand_str(rng)]
 
 
@@ -56,6 +62,8 @@ def gen_cases(rng, n, tier):
             k = gen_key(rng, cfg)
             if k not in keys:
                 keys.append(k)
+            if cfg['keyshape'] in ('pkc', 'pkm') and k[::-1] not in keys and rng.random() < 0.7:
+                keys.append(k[::-1])
         rows = []
         for ki, k in enumerate(keys):
             if rng.random() < 0.15:
@@ -80,6 +88,14 @@ def build(cfg):
             attrs['id'] = sa.Column(sa.Unicode(400), primary_key=True)
         elif cfg['keyshape'] == 'int':
             attrs['id'] = sa.Column(sa.BigInteger, primary_key=True, autoincrement=False)
+        elif cfg['keyshape'] == 'pkc':
+            attrs['id1'] = sa.Column(sa.Integer, autoincrement=False)
+            attrs['id2'] = sa.Column(sa.Integer, autoincrement=False)
+            attrs['__table_args__'] = (sa.PrimaryKeyConstraint('id2', 'id1'),)
+        elif cfg['keyshape'] == 'pkm':
+            attrs['id1'] = sa.Column(sa.Integer, primary_key=True, autoincrement=False)
+            attrs['id2'] = sa.Column(sa.Integer, primary_key=True, autoincrement=False)
+            attrs['__mapper_args__'] = {'primary_key': [attrs['id2'], attrs['id1']]}
         else:
             attrs['id1'] = sa.Column(sa.Integer, primary_key=True, autoincrement=False)
             attrs['id2'] = sa.Column(sa.Unicode(400), primary_key=True)
@@ -89,7 +105,7 @@ def build(cfg):
 
 
 def kcols(cfg):
-    return ['id1', 'id2'] if cfg['keyshape'] == 'intstr' else ['id']
+    return ['id1', 'id2'] if cfg['keyshape'] in ('intstr', 'pkc', 'pkm') else ['id']
 
 
 def _observe(env, cfg, case):
@@ -116,7 +132,8 @@ def _observe(env, cfg, case):
     obs = []
     try:
         for ki, k in enumerate(case['keys']):
-            obj = s.get(Article, tuple(k) if len(k) > 1 else k[0])
+            # by column values, not by identity: the order of a composite identity is the mapper's, not ours
+            obj = s.query(Article).filter_by(**dict(zip(kc, k))).one()
             vc = obj.versions.count()
             try:
                 cnt = count_versions(obj)
@@ -169,6 +186,13 @@ def encode(case, obs):
 def nontrivial(case, obs):
     if len(case['keys']) < 2:
         return False
+    if case['cfg']['keyshape'] in ('pkc', 'pkm'):
+        # a key and its mirror image with different numbers of versions
+        cnt = {}
+        for r in case['rows']:
+            cnt[r['k']] = cnt.get(r['k'], 0) + 1
+        ks = case['keys']
+        return any(k[0] != k[1] and k[::-1] in ks and cnt.get(i, 0) != cnt.get(ks.index(k[::-1]), 0) for i, k in enumerate(ks))
     for k in case['keys']:
         for part in k:
             if isinstance(part, str) and any(ch in part for ch in "'\"\\\n%:") or (isinstance(part, str) and any(ord(ch) > 127 for ch in part)):
